@@ -337,6 +337,7 @@ pub fn check_slices<T: Ar>(sp: &Spec<T>, cols: &[V<T>], fs: &[T], hs: &[T], als:
                     Err(msg) => c.violation(&sig("slices", sp, &form_name, "panic", "-"), 1.0, || case(wrapped, 0, json!(msg), json!("no panic"))),
                     Ok(g) => {
                         cnt.tv += 1 + len as u64;
+                        c.outcome(g.iter().fold(len as u64, |h, v| h.rotate_left(5) ^ hash_v(v)));
                         if g.len() != len {
                             c.violation(&sig("slices", sp, &form_name, "length", "-"), 1.0, || case(wrapped, 0, json!(g.len()), json!(len)));
                             continue;
